@@ -98,11 +98,22 @@ def proc_ids(pid):
 
 class Server:
     def __init__(self, worker_class="sync", workers=1, threads=None, args=(), bind="tcp", pidfile=False,
-                 config=None, env=None, name="srv", daemon=False, tls=False, release=False):
+                 config=None, env=None, name="srv", daemon=False, tls=False, release=False, relcfg=False):
         self.dir = tempfile.mkdtemp(prefix=name + "_", dir=_scratch())
         self.port = None
         self.sockpath = None
-        if bind in ("tcp", "localhost"):
+        self._lsock = None
+        if bind == "fd":
+            # a listening socket handed over by the starter (the documented fd://N bind; what systemd socket activation
+            # does): created here, left in BLOCKING mode as a plain socket() is
+            self._lsock = socket.socket(socket.AF_INET, socket.SOCK_STREAM)
+            self._lsock.setsockopt(socket.SOL_SOCKET, socket.SO_REUSEADDR, 1)
+            self._lsock.bind(("127.0.0.1", 0))
+            self._lsock.listen(64)
+            self._lsock.set_inheritable(True)
+            self.port = self._lsock.getsockname()[1]
+            self.bind = "fd://%d" % self._lsock.fileno()
+        elif bind in ("tcp", "localhost"):
             self.port = free_port()
             # "localhost": the configured address differs textually from what getsockname() reports
             self.bind = ("127.0.0.1:%d" if bind == "tcp" else "localhost:%d") % self.port
@@ -139,6 +150,10 @@ class Server:
         self.env = dict(os.environ)
         self.env.update({"PYTHONPATH": REPO, "PYTHONDONTWRITEBYTECODE": "1", "PYTHONUNBUFFERED": "1"})
         self.cwd = REPO
+        if relcfg:
+            # the configuration file is named relative to the start directory, while --chdir names another one
+            self.cmd[self.cmd.index("-c") + 1] = os.path.basename(self.cfgfile)
+            self.cwd = self.dir
         self.release = 0
         if release:
             # a "current -> releases/N" deployment: the server is started from the symlinked directory (as a shell
@@ -195,6 +210,7 @@ class Server:
     def start(self, timeout=15):
         self.t0 = time.time()
         self.proc = subprocess.Popen(self.cmd, cwd=self.cwd, env=self.env, stdout=subprocess.DEVNULL,
+                                     pass_fds=[self._lsock.fileno()] if self._lsock else (),
                                      stderr=subprocess.DEVNULL)
         deadline = time.time() + timeout
         if self.daemon:
@@ -301,6 +317,11 @@ class Server:
                 self.proc.kill()
                 self.proc.wait(5)
             except Exception:
+                pass
+        if self._lsock is not None:
+            try:
+                self._lsock.close()
+            except OSError:
                 pass
         shutil.rmtree(self.dir, ignore_errors=True)
 
